@@ -888,6 +888,36 @@ def run_concat(group, idx):
     return results
 
 
+def foreign_text_cases():
+    """keys from a producer that writes user ids in Latin-1 (not valid UTF-8): import, then copy / derived public key must export
+    exactly like the imported key, and that export must read back with the same identities"""
+    out = []
+    for name, repl in (('Jurgen', b'J\xfcrgen'), ('Zoe Q', b'Zo\xeb Q'), ('Ab', b'\xff\xfe')):
+        for half in ('public', 'private'):
+            pp = []
+            try:
+                k = pgpy.PGPKey.new(PubKeyAlgorithm.EdDSA, EllipticCurveOID.Ed25519)
+                k.add_uid(pgpy.PGPUID.new(name), usage={KeyFlags.Sign, KeyFlags.Certify})
+                blob = bytes(k.pubkey if half == 'public' else k)
+                i = blob.index(name.encode())
+                foreign = blob[:i] + repl + blob[i + len(name):]          # same length: only the text octets differ
+                key, _ = pgpy.PGPKey.from_blob(foreign)
+                if bytes(key) != foreign:
+                    pp.append('imported key does not re-export as received')
+                for what, obj in (('copy', copy.copy(key)), ('derived public key', key.pubkey)):
+                    want = bytes(key) if what == 'copy' or half == 'public' else None
+                    got = bytes(obj)
+                    if want is not None and got != want:
+                        pp.append('%s exports differently from the key it was made from' % what)
+                    uidp = [b for t, b, _ in indep.packets(got) if t == 13]
+                    if uidp != [repl]:
+                        pp.append('%s exports the user id packet %r, received %r' % (what, uidp, repl))
+            except Exception as ex:
+                pp.append('raised %s: %s' % (type(ex).__name__, str(ex)[:80]))
+            out.append({'case': {'shape': ['foreign user id ' + repr(repl), half], 'form': 'latin-1 user id', 'kind': 'foreign-text'}, 'problems': pp[:2], 'nontrivial': True})
+    return out
+
+
 def _worker(args):
     warnings.simplefilter('ignore')
     fast_s2k()
@@ -961,6 +991,7 @@ def component(tier='quick', seed=0, known=()):
     with ctx.Pool(nproc) as pool:
         parts = pool.map(_worker, [(c, tier, i) for i, c in enumerate(chunks)], chunksize=1)
     results = [r for p in parts for r in p]
+    results += foreign_text_cases()
     violations, known_hits, seen_kinds = [], [], collections.Counter()
     first = collections.OrderedDict()
     distinct = set()
